@@ -75,7 +75,7 @@ class Step:
             return bool(self.ev(t[1], env)) and bool(self.ev(t[2], env))
         if op == '||':
             return bool(self.ev(t[1], env)) or bool(self.ev(t[2], env))
-        if op == '!' and len(t) == 2:
+        if op in ('!', 'u!') and len(t) == 2:
             return not self.ev(t[1], env)
         if op == 'u-' and len(t) == 2:
             return -self.ev(t[1], env)
